@@ -187,7 +187,7 @@ class TwinMustRaise(Exception):
 
 def main():
     tier = common.tier()
-    nshards, nprogs = (8, 60) if tier == "quick" else (32, 800)
+    nshards, nprogs = (16, 25) if tier == "quick" else (32, 500)
     jobs = [dict(seed="%d/%s/%d" % (common.seed(), PROP, s), nprogs=nprogs) for s in range(nshards)]
     R = common.Run(PROP, "exploration", RULE)
     for job, res, err in shard.run_jobs("vf.checks.C09", "worker", jobs, timeout=3600, nproc=16):
